@@ -111,9 +111,74 @@ def _options(od, addition_type=None, force_dfs=None):
     return Options(**kw)
 
 
-def _build(cd, force_dfs=None):
+def classes_of(case):
+    """the declarations of the case in order, and which of them is parsed"""
+    if "classes" in case:
+        return case["classes"], case.get("target", 0)
+    return [case["cls"]], 0
+
+
+def eff_opts(classes, t):
+    """the Options a class ends up with: its own `__options__`, else what the attribute lookup finds on its first base"""
+    cd = classes[t]
+    if "opts" not in cd:
+        return {}, cd.get("addition_type")
+    if cd["opts"] is not None:
+        return cd["opts"], cd.get("addition_type")
+    bases = cd.get("bases") or []
+    return eff_opts(classes, bases[0]) if bases else ({}, None)
+
+
+def fkey(fd):
+    n = fd.get("alias") or fd["attname"]
+    return n.lower() if fd.get("ci") else n
+
+
+def flatten(classes, t):
+    """the declaration a class amounts to: the fields of its bases (each case-insensitive or not as its declaring
+    class says), minus the dropped names, with the fields of its own body replacing those of the same name"""
+    cd = classes[t]
+    o, at = eff_opts(classes, t)
+    fields = {}
+    for b in reversed(cd.get("bases") or []):
+        for fd in flatten(classes, b)["fields"]:
+            fields[fkey(fd)] = fd
+    for a in cd.get("drops") or []:
+        fields.pop(a, None)
+    own_ci = bool((o or {}).get("case_insensitive"))
+    own = []
+    for fd in cd["fields"]:
+        fd2 = dict(fd)
+        fd2["ci"] = fd["ci"] if fd.get("ci") is not None else own_ci
+        fields[fkey(fd2)] = fd2
+        own.append(fd2)
+    # a dependency names a field of the class that declares it (by any of its keys); subclasses take it over as a
+    # dependency on that field's output name
+    for fd2 in own:
+        deps = []
+        for d in fd2.get("deps") or []:
+            hit = None
+            for g in fields.values():
+                gn = g.get("alias") or g["attname"]
+                keys = [gn, g["attname"]] + list(g.get("alias_from") or [])
+                if g.get("ci"):
+                    keys = [k.lower() for k in keys] + [gn]
+                if d in keys:
+                    hit = gn
+                    break
+            deps.append(hit if hit is not None else d)
+        fd2["deps"] = deps
+    return {"fields": list(fields.values()), "opts": o, "addition_type": at}
+
+
+def flat(case):
+    classes, t = classes_of(case)
+    return flatten(classes, t)
+
+
+def _build(cd, bases=(), name="K"):
     from utype import Schema
-    ns = {"__module__": __name__, "__qualname__": "K", "__annotations__": {}}
+    ns = {"__module__": __name__, "__qualname__": name, "__annotations__": {}}
     T = _types()
     defaults = {}
     for fd in cd["fields"]:
@@ -122,8 +187,34 @@ def _build(cd, force_dfs=None):
         ns[fd["attname"]] = f
         if "default" in kw:
             defaults[fd["attname"]] = kw["default"]
-    ns["__options__"] = _options(cd.get("opts", {}), cd.get("addition_type"), force_dfs)
-    return type("K", (Schema,), ns), defaults
+    for a in cd.get("drops") or []:
+        ns[a] = ...
+    if "opts" not in cd or cd["opts"] is not None:
+        ns["__options__"] = _options(cd.get("opts") or {}, cd.get("addition_type"))
+    return type(name, tuple(bases) or (Schema,), ns), defaults
+
+
+def _build_all(classes):
+    """declare the classes in order; a declaration that fails (ConfigError) is skipped with its subclasses"""
+    from utype.utils import exceptions as exc
+    import warnings
+    warnings.simplefilter("ignore")
+    built = []
+    for i, cd in enumerate(classes):
+        bases = cd.get("bases") or []
+        if any(built[b][0] is None for b in bases):
+            built.append((None, {}, "base failed"))
+            continue
+        try:
+            cls, defaults = _build(cd, [built[b][0] for b in bases], f"K{i}")
+            for b in bases:
+                defaults = dict(built[b][1], **defaults)
+            built.append((cls, defaults, None))
+        except (exc.ConfigError, SyntaxError) as e:
+            built.append((None, {}, type(e).__name__))
+        except Exception as e:
+            built.append((None, {}, "other:" + type(e).__name__))
+    return built
 
 
 def _err(e):
@@ -136,21 +227,20 @@ def _err(e):
     return [k, getattr(e, "item", None)]
 
 
-def _run(cd, runtime, data, force_dfs=None):
+def _run(classes, target, built, runtime, data, force_dfs=None):
+    """parse with class number `target` (all classes of the case are declared by now)"""
     from utype.utils import exceptions as exc
-    import warnings
-    warnings.simplefilter("ignore")
-    try:
-        if runtime is None:
-            cls, defaults = _build(cd, force_dfs)
-            opts = None
-        else:
-            cls, defaults = _build(cd)
-            opts = _options(runtime, None, force_dfs)
-    except (exc.ConfigError, SyntaxError) as e:
-        return {"config_error": type(e).__name__}, None
-    except Exception as e:
-        return {"config_error": "other:" + type(e).__name__}, None
+    cls, defaults, err = built[target]
+    if cls is None:
+        return {"config_error": err}, None
+    cd = flatten(classes, target)
+    if runtime is not None:
+        opts = _options(runtime, None, force_dfs)
+    elif force_dfs is not None:
+        # runtime options replace the class's wholesale: the class's own, with the strategy forced
+        opts = _options(cd["opts"] or {}, cd.get("addition_type"), force_dfs)
+    else:
+        opts = None
     try:
         inst = cls.__from__(dict((k, copy.deepcopy(v)) for k, v in data), options=opts)
     except exc.CollectedParseError as e:
@@ -221,20 +311,24 @@ def _run_func(cd, data, force_dfs):
 def impl(case):
     """as declared + once per strategy, on the real code; plus the leaf-converter tables"""
     from utype import type_transform
-    cd, runtime, data = case["cls"], case.get("runtime"), case["data"]
+    runtime, data = case.get("runtime"), case["data"]
     if case.get("kind") == "func":
+        cd = case["cls"]
         out = _run_func(cd, data, None)
         res = {"out": out, "func": True}
         if "config_error" not in out:
             res["df"] = _run_func(cd, data, True)
             res["ff"] = _run_func(cd, data, False)
         return res
-    out, cls = _run(cd, runtime, data)
-    res = {"out": out}
+    classes, target = classes_of(case)
+    built = _build_all(classes)
+    out, cls = _run(classes, target, built, runtime, data)
+    res = {"out": out, "declared": [b[2] for b in built]}
     if "config_error" in out:
         return res
-    res["df"], _ = _run(cd, runtime, data, True)
-    res["ff"], _ = _run(cd, runtime, data, False)
+    res["df"], _ = _run(classes, target, built, runtime, data, True)
+    res["ff"], _ = _run(classes, target, built, runtime, data, False)
+    cd = flatten(classes, target)
     # leaf conversions in isolation (World.fp / World.addConv)
     values = {vtext(v): v for _, v in data}
     fp = {}
@@ -316,7 +410,7 @@ def flag_on(fl, v, omode, fmode, static=False):
 
 
 def contract(case, fp, addconv):
-    cd = case["cls"]
+    cd = flat(case)
     copts = norm_opts(cd.get("opts"))
     o = norm_opts(case["runtime"]) if case.get("runtime") is not None else copts
     fields = [derive_field(fd, copts["case_insensitive"]) for fd in cd["fields"]]
@@ -360,7 +454,7 @@ def contract(case, fp, addconv):
             else:
                 if not o["ignore_alias_conflicts"] and any(vtext(x) != vtext(c) for x in cands[1:]):
                     fo["errs"].append(("AliasConflictError", f["name"]))
-                r = fp[f["attname"]][vtext(c)]
+                r = (fp.get(f["attname"]) or {}).get(vtext(c))
                 if r is not None:
                     fo["value"], fo["active"] = r, True
                 else:
@@ -488,12 +582,15 @@ def judge(out, want, what="instance"):
 
 def key_table(case):
     ks = set()
-    for fd in case["cls"]["fields"]:
-        ks.add(fd["attname"])
-        if fd.get("alias"):
-            ks.add(fd["alias"])
-        ks.update(fd.get("alias_from") or [])
-        ks.update(fd.get("deps") or [])
+    classes, _ = classes_of(case)
+    for cd in classes:
+        for fd in cd["fields"]:
+            ks.add(fd["attname"])
+            if fd.get("alias"):
+                ks.add(fd["alias"])
+            ks.update(fd.get("alias_from") or [])
+            ks.update(fd.get("deps") or [])
+        ks.update(cd.get("drops") or [])
     ks.update(k for k, _ in case["data"])
     for k in list(ks):
         ks.add(k.lower())
@@ -530,9 +627,7 @@ def model_opts(od):
     return o
 
 
-def model_line(case, io, legacy=None):
-    keys, ix = key_table(case)
-    cd = case["cls"]
+def model_class(cd, ix):
     fields = []
     for fd in cd["fields"]:
         req = fd.get("required")
@@ -545,6 +640,17 @@ def model_line(case, io, legacy=None):
             "no_input": model_flag(fd.get("no_input", False)), "no_output": model_flag(fd.get("no_output", False)),
             "mode": modes(fd["mode"]) if fd.get("mode") is not None else None,
             "deps": [ix[a] for a in fd.get("deps") or []], "on_error": fd.get("on_error")})
+    own = "opts" not in cd or cd["opts"] is not None
+    od = cd.get("opts") or {}
+    return {"fields": fields, "opts": model_opts(od) if own else None,
+            "addition_typed": bool(cd.get("addition_type")) and od.get("addition") is True,
+            "bases": list(cd.get("bases") or []), "drops": [ix[a] for a in cd.get("drops") or []]}
+
+
+def model_line(case, io, legacy=None):
+    keys, ix = key_table(case)
+    classes, target = classes_of(case)
+    cd = flatten(classes, target)
     values = sorted({vtext(v) for _, v in case["data"]})
     fp = []
     for fd in cd["fields"]:
@@ -559,12 +665,16 @@ def model_line(case, io, legacy=None):
     extra = set()
     for tab in (io.get("fp") or {}).values():
         extra.update(x for x in tab.values() if x is not None)
-    for fd in cd["fields"]:
-        if fd.get("default") is not None:
-            extra.add(vtext(fd["default"]["v"]))
-    for od in (cd.get("opts"), case.get("runtime")):
+    for c in classes:
+        for fd in c["fields"]:
+            if fd.get("default") is not None:
+                extra.add(vtext(fd["default"]["v"]))
+        od = c.get("opts")
         if od and od.get("force_default") is not None:
             extra.add(vtext(od["force_default"]["v"]))
+    od = case.get("runtime")
+    if od and od.get("force_default") is not None:
+        extra.add(vtext(od["force_default"]["v"]))
     for t in sorted(extra - set(values)):
         for name, k in PREDS.items():
             try:
@@ -574,8 +684,7 @@ def model_line(case, io, legacy=None):
     line = {
         "lower": [ix[k.lower()] for k in keys], "islower": [k.islower() for k in keys],
         "fp": fp, "pred": pred, "addconv": [[t, x] for t, x in sorted((io.get("addconv") or {}).items())],
-        "cls": {"fields": fields, "opts": model_opts(cd.get("opts") or {}),
-                "addition_typed": bool(cd.get("addition_type")) and (cd.get("opts") or {}).get("addition") is True},
+        "classes": [model_class(c, ix) for c in classes], "target": target,
         "runtime": model_opts(case.get("runtime")),
         "data": [[ix[k], vtext(v)] for k, v in case["data"]],
         "legacy": legacy or {},
@@ -585,7 +694,6 @@ def model_line(case, io, legacy=None):
 
 def unmodel_outcome(mo, keys, case):
     """model outcome (ids) → the adapter's shape (strings)"""
-    att = {ix: fd["attname"] for ix, fd in enumerate(case["cls"]["fields"])}
 
     def err(e):
         i = e.get("i")
@@ -802,6 +910,80 @@ def gen_case(rng: random.Random, maxfields=4):
     return {"cls": cd, "runtime": runtime, "data": gen_data(rng, cd, copts)}
 
 
+def gen_hier_case(rng: random.Random):
+    """a base class, one to three subclasses (own or inherited Options - case_insensitive, mode, addition, ... -, new
+    fields, fields replacing inherited ones, dropped names; multi-level and diamond), declared in order; one of the
+    classes - often the base, after its subclasses exist - is parsed"""
+    n0 = rng.choice([1, 2, 2, 3])
+    base_fields = [gen_field(rng, i, n0) for i in range(n0)]
+    if rng.random() < 0.5:
+        # a capital in a declared key is what a case-folding mistake needs to show
+        fd = rng.choice(base_fields)
+        if fd["ci"] is True:
+            fd["ci"] = None
+    bopts = gen_opts(rng, False)
+    classes = [{"fields": base_fields, "opts": bopts}]
+    if bopts.get("addition") is True and rng.random() < 0.4:
+        classes[0]["addition_type"] = rng.choice(["int", "str"])
+    used = n0
+    nsub = rng.choice([1, 1, 2, 2, 3])
+    for j in range(1, nsub + 1):
+        if j == 1:
+            bases = [0]
+        elif j == 2:
+            bases = [rng.choice([0, 1])]
+        else:
+            bases = [1, 2] if classes[2]["bases"] == [0] and rng.random() < 0.6 else [rng.choice([1, 2])]
+        cd = {"bases": bases, "fields": []}
+        if rng.random() < 0.65:
+            o = gen_opts(rng, False)
+            parent = eff_opts(classes, bases[0])[0] or {}
+            if rng.random() < 0.6:
+                # differ from the parent in case sensitivity
+                if parent.get("case_insensitive"):
+                    o.pop("case_insensitive", None)
+                else:
+                    o["case_insensitive"] = True
+            cd["opts"] = o
+            if o.get("addition") is True and rng.random() < 0.3:
+                cd["addition_type"] = rng.choice(["int", "str"])
+        else:
+            cd["opts"] = None
+        inherited = flatten(classes + [dict(cd, fields=[])], len(classes))["fields"]
+        if used < 4 and rng.random() < 0.7:
+            cd["fields"].append(gen_field(rng, used, 4))
+            used += 1
+        if inherited and rng.random() < 0.4:
+            old = rng.choice(inherited)
+            new = gen_field(rng, 0, 4)
+            new["attname"], new["alias"], new["type"] = old["attname"], old.get("alias"), old.get("type", "any")
+            if rng.random() < 0.7:
+                new["ci"] = old.get("ci")
+            new["alias_from"] = list(old.get("alias_from") or []) if rng.random() < 0.6 else []
+            if field_ok(new) and all(f["attname"] != new["attname"] for f in cd["fields"]):
+                cd["fields"].append(new)
+        if inherited and rng.random() < 0.12:
+            old = rng.choice(inherited)
+            # `name = ...` drops the field only when the name is its key in parser.fields
+            if fkey(old) == old["attname"] and all(f["attname"] != old["attname"] for f in cd["fields"]):
+                cd["drops"] = [old["attname"]]
+        # dependencies inside the subclass: on any field it has
+        allf = inherited + cd["fields"]
+        for fd in cd["fields"]:
+            if len(allf) > 1 and rng.random() < 0.25:
+                t = rng.choice([f for f in allf if f["attname"] != fd["attname"]] or allf)
+                fd["deps"] = [rng.choice([t["attname"], t.get("alias") or t["attname"]] + list(t.get("alias_from") or []))]
+        classes.append(cd)
+    for i, fd in enumerate(base_fields):
+        if n0 > 1 and rng.random() < 0.25:
+            t = base_fields[rng.choice([x for x in range(n0) if x != i])]
+            fd["deps"] = [rng.choice([t["attname"], t.get("alias") or t["attname"]] + list(t["alias_from"]))]
+    target = 0 if rng.random() < 0.45 else rng.randrange(len(classes))
+    cdt = flatten(classes, target)
+    runtime = gen_opts(rng, True) if rng.random() < 0.4 else None
+    return {"classes": classes, "target": target, "runtime": runtime, "data": gen_data(rng, cdt, cdt["opts"] or {})}
+
+
 def gen_func_case(rng: random.Random):
     """the same declaration as a keyword-only function (legal for FunctionParser.check_function)"""
     c = gen_case(rng)
@@ -868,7 +1050,9 @@ class C05(Check):
     driver = "C05"
     impl = "harness.c05:impl"
     case_timeout = 20.0
-    rule = ("seeded declarations of 1-4 fields drawn from the Field parameter product (alias, alias_from<=2, case_insensitive, "
+    rule = ("35% of the cases are class hierarchies (a base and 1-3 subclasses with own or inherited Options, new / replacing / "
+            "dropped fields, multi-level and diamond; all declared in order, then one of them - 45% the base - is parsed); the "
+            "rest single classes: seeded declarations of 1-4 fields drawn from the Field parameter product (alias, alias_from<=2, case_insensitive, "
             "required incl. mode strings, default/default_factory/defer_default, no_input/no_output as bool, mode string or "
             "predicate, mode/readonly/writeonly, dependencies by attname/alias, on_error) x class and runtime Options x inputs "
             "over accepted names, aliases, letter-case variants, duplicates with equal/different/equal-after-parse values and "
@@ -879,7 +1063,7 @@ class C05(Check):
         "Python == on input values is modelled as structural equality (the generator uses ints, strs, None and small lists)",
         "leaf type conversion, user predicates and str.lower are abstract in the theorems; the correspondence run instantiates "
         "them with tables measured on the real converters in isolation",
-        "property fields (@property), inherited fields, Final, discriminator and function parameters are outside the modelled fragment",
+        "property fields (@property), Final, discriminator and function parameters are outside the modelled fragment; a field inherited from a base class is case-insensitive or not as its declaring class says",
     ]
     budget = {"quick": 6000, "thorough": 120000}
     search_budget = {"quick": 4000, "thorough": 20000}
@@ -890,7 +1074,7 @@ class C05(Check):
         out = []
         if tier == "thorough":
             out += grid_cases()
-        out += [gen_case(rng) for _ in range(n)]
+        out += [gen_hier_case(rng) if rng.random() < 0.35 else gen_case(rng) for _ in range(n)]
         return out
 
     # -- evaluation: the model line needs the measured leaf tables, so the implementation runs first
@@ -921,9 +1105,17 @@ class C05(Check):
             return None          # functions are outside the modelled fragment (oracle only)
         if not isinstance(mo, dict) or "model" not in mo:
             return f"driver: {mo}"
+        classes, target = classes_of(case)
+        chain, todo = set(), [target]
+        while todo:
+            i = todo.pop()
+            if i not in chain:
+                chain.add(i)
+                todo += list(classes[i].get("bases") or [])
+        wf = all(mo["wf_all"][i] for i in chain)
         if "config_error" in io["out"]:
-            return f"model accepts a declaration the code rejects ({io['out']['config_error']})" if mo["wf"] else None
-        if not mo["wf"]:
+            return f"model accepts a declaration the code rejects ({io['out']['config_error']})" if wf else None
+        if not wf:
             # the theorems' hypothesis `Parser.wf` is meant to be exactly "ClassParser.setup raises no ConfigError"
             return "the code accepts a declaration the model's well-formedness rejects"
         keys = mo["_keys"]
@@ -977,10 +1169,12 @@ class C05(Check):
         return json.dumps(case, sort_keys=True) if self.features(case, io) else None
 
     def features(self, case, io):
-        cd = case["cls"]
+        cd = case["cls"] if case.get("kind") == "func" else flat(case)
         copts = norm_opts(cd.get("opts"))
         fs = [derive_field(fd, copts["case_insensitive"]) for fd in cd["fields"]]
         feats = set()
+        if len(classes_of(case)[0]) > 1 and case.get("kind") != "func":
+            feats.add("hierarchy")
         out = io["out"]
         if "ok" not in out:
             feats.add("fails")
@@ -1030,7 +1224,7 @@ class C05(Check):
                 out.append(dict(case, data=data[:i] + [[data[i][0], v]] + data[i + 1:]))
         if len(data) > 1:
             out.append(dict(case, data=list(reversed(data))))
-        base = case.get("runtime") if case.get("runtime") is not None else case["cls"].get("opts", {})
+        base = case.get("runtime") if case.get("runtime") is not None else (flat(case).get("opts") or {})
         for k, vals in (("mode", [None, "r", "w", "a"]), ("ignore_required", [True, False]),
                         ("ignore_alias_conflicts", [True, False]), ("collect_errors", [True, False]),
                         ("addition", [None, True, False]), ("data_first_search", [True, False, None]),
